@@ -722,3 +722,249 @@ Proof.
   split; [exact Hnone|].
   intros t Ht. rewrite TH. apply (IT (cnt (m_attackers s1) t) (m_th s1 t) (mi_entries s1 I1 t)). apply In_cnt in Ht. lia.
 Qed.
+
+(* ---- add_association ---- *)
+Lemma fold_cond_upd_a_each' (p : masset -> bool) (u : masset -> masset) : forall l, NoDup l -> forall ah x,
+  fold_left (fun ah a => if p (ah a) then ah else upd_a ah a u) l ah x =
+  if memn x l then (if p (ah x) then ah x else u (ah x)) else ah x.
+Proof.
+  induction l as [|a r IH]; intros N ah x; cbn [fold_left]; auto. inversion N; subst.
+  rewrite IH by auto. cbn [memn existsb]. fold (memn x r).
+  destruct (Nat.eqb_spec x a) as [->|Nx].
+  - replace (memn a r) with false by (symmetry; apply memn_nIn; auto). cbn.
+    destruct (p (ah a)) eqn:E; [|rewrite upd_a_same]; reflexivity.
+  - destruct (p (ah a)); [|rewrite upd_a_other by auto]; reflexivity.
+Qed.
+
+Lemma field_names_unique_NoDup s : MI s -> forall l, (forall x, In x l -> In x (m_assets s)) ->
+  field_names_unique s l = true -> NoDup l.
+Proof.
+  intros I. unfold field_names_unique.
+  assert (G : forall l seen, (forall x, In x l -> In x (m_assets s)) ->
+     (fix go (l : list nat) (seen : list string) : bool :=
+        match l with
+        | [] => true
+        | a :: r => match ma_name (m_ah s a) with
+                    | Some n => if mems n seen then false else go r (n :: seen)
+                    | None => go r seen
+                    end
+        end) l seen = true ->
+     NoDup l /\ forall x n, In x l -> name_of s x = Some n -> ~ In n seen).
+  { induction l as [|a r IH]; intros seen Hl H; [split; [constructor|intros ? ? []]|].
+    destruct (MI_has_id s I a (Hl a (or_introl eq_refl))) as (i & n & _ & _ & En & _). unfold name_of in En. rewrite En in H.
+    destruct (mems n seen) eqn:Es; [discriminate|].
+    destruct (IH (n :: seen) (fun x Hx => Hl x (or_intror Hx)) H) as [N1 N2]. split.
+    - constructor; auto. intros Hin. apply (N2 a n Hin); [exact En | left; auto].
+    - intros x m [<-|Hx] Em.
+      + unfold name_of in Em. assert (m = n) by congruence. subst. intros A. apply mems_In in A. congruence.
+      + intros A. apply (N2 x m Hx Em). right; auto. }
+  intros l Hl H. apply (G l [] Hl H).
+Qed.
+
+Lemma MI_add_association s c : MI s -> c < m_nc s -> ~ In c (m_assocs s) ->
+  (forall x, In x (members s c) -> In x (m_assets s)) -> MI (fst (add_association s c)).
+Proof.
+  intros I Lc Nc Hlive. unfold add_association.
+  destruct (memn c _); cbn [fst]; auto.
+  destruct (field_names_unique s (mc_left (m_ch s c)) && field_names_unique s (mc_right (m_ch s c))) eqn:Efn; cbn [negb fst]; auto.
+  destruct (existsb _ (mc_left (m_ch s c))); cbn [fst]; auto.
+  apply andb_true_iff in Efn. destruct Efn as [F1 F2].
+  assert (NL : NoDup (mc_left (m_ch s c))).
+  { apply (field_names_unique_NoDup s I); auto. intros x Hx. apply Hlive. unfold members. apply in_or_app. auto. }
+  assert (NR : NoDup (mc_right (m_ch s c))).
+  { apply (field_names_unique_NoDup s I); auto. intros x Hx. apply Hlive. unfold members. apply in_or_app. auto. }
+  set (u := fun x : masset => a_set_assocs x (ma_assocs x ++ [c])).
+  set (p := fun a : masset => memn c (ma_assocs a)).
+  set (ah1 := fold_left (fun ah a => if memn c (ma_assocs (ah a)) then ah else upd_a ah a u) (mc_left (m_ch s c)) (m_ah s)).
+  set (ah2 := fold_left (fun ah a => if memn c (ma_assocs (ah a)) then ah else upd_a ah a u) (mc_right (m_ch s c)) ah1).
+  assert (NOC : forall x, In x (m_assets s) -> ~ In c (ma_assocs (m_ah s x))).
+  { intros x Hx A. apply (mi_backrefs s I x c Hx) in A. tauto. }
+  assert (A2 : forall x, In x (m_assets s) ->
+     m_ah s x = m_ah s x /\
+     ma_assocs (ah2 x) = (if memn x (members s c) then ma_assocs (m_ah s x) ++ [c] else ma_assocs (m_ah s x)) /\
+     ma_id (ah2 x) = ma_id (m_ah s x) /\ ma_name (ah2 x) = ma_name (m_ah s x)).
+  { intros x Hx. split; auto. unfold ah2, ah1.
+    rewrite (fold_cond_upd_a_each' p u) by auto. rewrite (fold_cond_upd_a_each' p u) by auto.
+    unfold members. rewrite memn_app.
+    pose proof (NOC x Hx) as Nx. apply memn_nIn in Nx.
+    assert (P0 : p (m_ah s x) = false) by exact Nx.
+    assert (P1 : p (u (m_ah s x)) = true).
+    { unfold p, u. cbn [ma_assocs a_set_assocs]. apply memn_In. apply In_app_single. auto. }
+    destruct (memn x (mc_left (m_ch s c))) eqn:EL, (memn x (mc_right (m_ch s c))) eqn:ER; cbn [orb];
+      repeat (rewrite ?P0, ?P1; cbv iota); unfold u; cbn [ma_assocs ma_id ma_name a_set_assocs]; auto. }
+  constructor; cbn.
+  - apply I.
+  - apply I.
+  - rewrite <- (mi_ids s I). apply map_ext_in. intros x Hx. unfold id_of; cbn. apply (A2 x Hx).
+  - rewrite <- (mi_names s I). apply map_ext_in. intros x Hx. unfold name_of; cbn. apply (A2 x Hx).
+  - apply I.
+  - apply I.
+  - apply I.
+  - apply NoDup_app_single; auto. apply I.
+  - intros c' Hc'. apply In_app_single in Hc'. destruct Hc' as [Hc'| ->]; auto. apply I; auto.
+  - intros c' x Hc' Hx. apply In_app_single in Hc'.
+    assert (MEM : members (mkM ah2 (upd_c (m_ch s) c (fun x => c_set_extras x (JDict []))) (m_th s) (m_na s) (m_nc s) (m_nt s)
+                      (m_assets s) (m_assocs s ++ [c]) (m_attackers s) (m_ids s) (m_names s)
+                      (t2a_add (m_type2assoc s) (mc_class (m_ch s c)) c) (m_next s)) c' = members s c').
+    { unfold members; cbn. unfold upd_c. destruct (Nat.eqb c' c) eqn:E; auto. }
+    unfold members in MEM. cbn in MEM. unfold members in Hx. cbn in Hx. rewrite MEM in Hx.
+    destruct Hc' as [Hc'| ->]; [eapply (mi_members_live s I c'); eauto | apply Hlive; auto].
+  - intros x c' Hx. destruct (A2 x Hx) as (_ & -> & _).
+    assert (MEM : forall c0, mc_left (upd_c (m_ch s) c (fun x => c_set_extras x (JDict [])) c0) ++
+                             mc_right (upd_c (m_ch s) c (fun x => c_set_extras x (JDict [])) c0) = members s c0).
+    { intros c0. unfold members, upd_c. destruct (Nat.eqb c0 c) eqn:E; auto; apply Nat.eqb_eq in E; subst; reflexivity. }
+    unfold members; cbn. rewrite MEM. rewrite In_app_single.
+    pose proof (mi_backrefs s I x c' Hx) as B. fold (members s c).
+    destruct (memn x (members s c)) eqn:Em.
+    + apply memn_In in Em. rewrite In_app_single. split.
+      * intros [A| ->]; [apply B in A; tauto | auto].
+      * intros [[A| ->] Hm]; [left; apply B; auto | right; auto].
+    + apply memn_nIn in Em. split.
+      * intros A. apply B in A. tauto.
+      * intros [[A| ->] Hm]; [apply B; auto | contradiction].
+  - intros x Hx. destruct (A2 x Hx) as (_ & -> & _). fold (members s c). destruct (memn x (members s c)).
+    + apply NoDup_app_single; [apply I; auto | apply NOC; auto].
+    + apply I; auto.
+  - intros c' Hc'. apply In_app_single in Hc'. unfold upd_c. destruct (Nat.eqb_spec c' c) as [->|N]; cbn; auto.
+    destruct Hc' as [Hc'|E]; [apply I; auto | congruence].
+  - apply I.
+  - apply I.
+Qed.
+
+(* ---- attackers ---- *)
+Lemma entry_add_spec : forall l h st, NoDup (map fst l) ->
+  NoDup (map fst (entry_add l h st)) /\ (forall x, In x (map fst (entry_add l h st)) <-> In x (map fst l) \/ x = h).
+Proof.
+  induction l as [|[a ss] r IH]; intros h st N; cbn.
+  - split; [constructor; [intros []|constructor] | intros x; intuition].
+  - inversion N; subst. destruct (Nat.eqb_spec a h) as [->|Na]; cbn.
+    + split; [constructor; auto | intros x; intuition].
+    + destruct (IH h st H2) as [I1 I2]. split.
+      * constructor; auto. rewrite I2. intros [A|A]; auto.
+      * intros x. rewrite I2. intuition.
+Qed.
+Lemma entry_remove_spec : forall l h st, NoDup (map fst l) ->
+  NoDup (map fst (entry_remove l h st)) /\ (forall x, In x (map fst (entry_remove l h st)) -> In x (map fst l)).
+Proof.
+  induction l as [|[a ss] r IH]; intros h st N; cbn; [split; [constructor|auto]|].
+  inversion N; subst. destruct (Nat.eqb_spec a h) as [->|Na].
+  - destruct (if mems st ss then remove1s st ss else ss); cbn; [split; auto | split; [constructor; auto | tauto]].
+  - destruct (IH h st H2) as [I1 I2]. cbn. split; [constructor; auto; intros A; apply H1; auto | intros x [<-|A]; auto].
+Qed.
+
+Lemma remove_first_equal_sub th t : forall l l', remove_first_equal th t l = Some l' ->
+  (forall x, In x l' -> In x l) /\ (NoDup l -> NoDup l').
+Proof.
+  induction l as [|x r IH]; intros l' H; cbn in H; [discriminate|].
+  destruct (Nat.eqb x t || matt_eqb (th x) (th t)).
+  - inversion H; subst. split; [intros; right; auto | intros N; inversion N; auto].
+  - destruct (remove_first_equal th t r) as [r'|] eqn:E; [|discriminate]. inversion H; subst.
+    destruct (IH r' eq_refl) as [I1 I2]. split.
+    + intros y [<-|Hy]; [left; auto | right; auto].
+    + intros N. inversion N; subst. constructor; auto.
+Qed.
+
+Lemma MI_attackers_change s l' th' next' nt' :
+  MI s -> (m_next s <= next')%Z ->
+  (forall t, NoDup (map fst (mt_entry (th' t)))) ->
+  (forall t h, In t l' -> In h (map fst (mt_entry (th' t))) -> In h (m_assets s)) ->
+  MI (mkM (m_ah s) (m_ch s) th' (m_na s) (m_nc s) nt' (m_assets s) (m_assocs s) l'
+          (m_ids s) (m_names s) (m_type2assoc s) next').
+Proof.
+  intros I Hn T1 T2. constructor; cbn.
+  - apply (mi_nodup_assets s I).
+  - apply (mi_alloc_a s I).
+  - apply (mi_ids s I).
+  - apply (mi_names s I).
+  - apply (mi_nodup_ids s I).
+  - apply (mi_nodup_names s I).
+  - intros i Hi. pose proof (mi_next s I i Hi). lia.
+  - apply (mi_nodup_assocs s I).
+  - apply (mi_alloc_c s I).
+  - apply (mi_members_live s I).
+  - apply (mi_backrefs s I).
+  - apply (mi_backrefs_nodup s I).
+  - apply (mi_fields_nodup s I).
+  - exact T1.
+  - exact T2.
+Qed.
+
+(* ---- every step preserves MI ---- *)
+Theorem mstep_MI s o : MI s -> MI (fst (fst (mstep s o))).
+Proof.
+  intros I. unfold mstep. destruct (mguard s o) eqn:G; cbn [negb]; [|auto].
+  destruct o; cbn [mguard] in G.
+  - (* MNewAsset *) cbn. apply (MI_frame s); cbn; auto; try apply I.
+    intros h Hh. pose proof (mi_alloc_a s I h Hh). rewrite upd_a_other by lia. auto.
+  - (* MAddAsset *)
+    apply andb_true_iff in G. destruct G as [G1 G2]. apply Nat.ltb_lt in G1. apply negb_true_iff in G2.
+    assert (N : ~ In h (m_assets s)) by (intros A; apply memn_In in A; unfold live_asset in G2; congruence).
+    pose proof (MI_add_asset s h i allow_dup I G1 N) as P. destruct (add_asset s h i allow_dup). exact P.
+  - (* MRemoveAsset *)
+    pose proof (proj1 (MI_remove_asset s h I)) as P. destruct (remove_asset s h). exact P.
+  - (* MNewAssoc *) cbn. apply (MI_frame s); cbn; auto; try apply I.
+    intros c Hc. pose proof (mi_alloc_c s I c Hc). rewrite upd_c_other by lia. auto.
+  - (* MAddAssoc *)
+    apply andb_true_iff in G. destruct G as [G G4]. apply andb_true_iff in G. destruct G as [G G3].
+    apply andb_true_iff in G. destruct G as [G1 G2]. apply Nat.ltb_lt in G1. apply negb_true_iff in G2.
+    assert (N : ~ In c (m_assocs s)) by (intros A; apply memn_In in A; unfold live_assoc in G2; congruence).
+    assert (Hl : forall x, In x (members s c) -> In x (m_assets s)).
+    { intros x Hx. unfold members in Hx. apply in_app_or in Hx. rewrite forallb_forall in G3, G4.
+      destruct Hx as [Hx|Hx]; apply memn_In; [apply G3 | apply G4]; auto. }
+    pose proof (MI_add_association s c I G1 N Hl) as P. destruct (add_association s c). exact P.
+  - (* MRemoveAssoc *)
+    unfold remove_association. destruct (memn c (m_assocs s)) eqn:E; cbn [negb]; [|cbn; auto].
+    apply memn_In in E. pose proof (MI_remove_association s c I E) as P. unfold remove_association in P.
+    rewrite (proj2 (memn_In _ _) E) in P. exact P.
+  - (* MRemoveFromAssoc *)
+    pose proof (MI_rfa s h c I) as P. destruct (remove_asset_from_association s h c). exact P.
+  - (* MSetAssocExtras *)
+    cbn. apply (MI_frame s); cbn; auto; try apply I.
+    intros c' Hc'. unfold upd_c. destruct (Nat.eqb c' c); cbn; auto.
+  - (* MNewAtt *) cbn.
+    apply (MI_attackers_change s (m_attackers s) (upd_t (m_th s) (m_nt s) (fun _ => mkMAtt None name [])) (m_next s) (S (m_nt s)) I); [lia| |].
+    + intros t. unfold upd_t. destruct (Nat.eqb t (m_nt s)); cbn; [constructor|apply I].
+    + intros t h Ht Hh. unfold upd_t in Hh. destruct (Nat.eqb t (m_nt s)); cbn in Hh; [destruct Hh|].
+      eapply (mi_entries_live s I); eauto.
+  - (* MAddAtt *)
+    apply andb_true_iff in G. destruct G as [G G3]. cbn. unfold add_attacker.
+    apply (MI_attackers_change s); auto; [lia| |].
+    + intros t0. unfold upd_t. destruct (Nat.eqb t0 t); cbn; apply I.
+    + intros t0 h Ht0 Hh. apply In_app_single in Ht0. unfold upd_t in Hh.
+      destruct (Nat.eqb_spec t0 t) as [->|N]; cbn in Hh.
+      * rewrite forallb_forall in G3. apply in_map_iff in Hh. destruct Hh as (e & <- & He). apply memn_In. apply G3; auto.
+      * destruct Ht0 as [Ht0|E]; [eapply (mi_entries_live s I); eauto | congruence].
+  - (* MRemoveAtt *)
+    unfold remove_attacker. destruct (remove_first_equal (m_th s) t (m_attackers s)) as [l|] eqn:E; cbn; auto.
+    destruct (remove_first_equal_sub _ _ _ _ E) as [S1 _].
+    apply (MI_attackers_change s); auto; [lia|apply I|]. intros t0 h Ht0 Hh. eapply (mi_entries_live s I); eauto.
+  - (* MAddEntry *)
+    apply andb_true_iff in G. destruct G as [G1 G2]. apply memn_In in G2. cbn. unfold add_entry_point, with_heaps.
+    apply (MI_attackers_change s); auto; [lia| |].
+    + intros t0. unfold upd_t. destruct (Nat.eqb t0 t); cbn; [apply entry_add_spec|]; apply I.
+    + intros t0 x Ht0 Hx. unfold upd_t in Hx. destruct (Nat.eqb t0 t) eqn:E; cbn in Hx.
+      * apply (entry_add_spec _ h step (mi_entries s I t0)) in Hx. destruct Hx as [Hx| ->]; auto. eapply (mi_entries_live s I); eauto.
+      * eapply (mi_entries_live s I); eauto.
+  - (* MRemoveEntry *)
+    cbn. unfold remove_entry_point, with_heaps. apply (MI_attackers_change s); auto; [lia| |].
+    + intros t0. unfold upd_t. destruct (Nat.eqb t0 t); cbn; [apply entry_remove_spec|]; apply I.
+    + intros t0 x Ht0 Hx. unfold upd_t in Hx. destruct (Nat.eqb t0 t) eqn:E; cbn in Hx.
+      * apply (entry_remove_spec _ h step (mi_entries s I t0)) in Hx. eapply (mi_entries_live s I); eauto.
+      * eapply (mi_entries_live s I); eauto.
+  - cbn; auto.
+  - cbn; auto.
+  - cbn; auto.
+Qed.
+
+Definition msteps (s : mstate) (ops : list mop) : mstate := fold_left (fun s o => fst (fst (mstep s o))) ops s.
+Lemma mrun_msteps ops : forall s outs,
+  fst (fold_left (fun '(s, outs) o => let '(s', oc, r) := mstep s o in (s', outs ++ [(oc, r)])) ops (s, outs)) = msteps s ops.
+Proof.
+  induction ops as [|o r IH]; intros s outs; cbn [fold_left]; auto.
+  destruct (mstep s o) as [[s' oc] rt] eqn:E. rewrite IH. unfold msteps. cbn [fold_left]. rewrite E. reflexivity.
+Qed.
+Theorem reachable_MI ops : MI (mfinal ops).
+Proof.
+  unfold mfinal, mrun. rewrite mrun_msteps. generalize minit MI_init.
+  induction ops as [|o r IH]; intros s I; cbn [msteps fold_left]; auto. apply IH. apply mstep_MI; auto.
+Qed.
